@@ -478,6 +478,33 @@ func checkC05(ops []bop, variant int, level c05Level) error {
 		}
 		k++
 	}
+	// A clone - of a buffer or of a whole commit - shares nothing with what it was taken from: the
+	// original goes back to the transaction pool, is Reset and filled by the next transaction while a
+	// logger, a channel consumer or a snapshot recorder still holds the clone.
+	orig := commit.NewBuffer(16)
+	orig.Reset("col")
+	for _, o := range ops {
+		writeBop(orig, o, variant)
+	}
+	held := orig.Clone()
+	cm := commit.Commit{ID: 7, Updates: []*commit.Buffer{orig}}
+	if len(blocks) > 0 {
+		cm.Chunk = commit.Chunk(blocks[0])
+	}
+	heldCommit := cm.Clone()
+	orig.Reset("next")
+	for i := 0; i < len(blocks)+3; i++ {
+		orig.PutUint64(commit.Put, uint32(i)*2*16384+7, 0xdeadbeefdeadbeef)
+	}
+	if err := checkBufferViews("clone, after the original buffer was reset and re-used", held, ops); err != nil {
+		return err
+	}
+	if len(heldCommit.Updates) != 1 {
+		return fmt.Errorf("Commit.Clone has %d buffers, the commit had 1", len(heldCommit.Updates))
+	}
+	if err := checkBufferViews("buffer of a Commit.Clone, after the original buffer was reset and re-used", heldCommit.Updates[0], ops); err != nil {
+		return err
+	}
 	return nil
 }
 
